@@ -258,7 +258,7 @@ func (t Type) DeepCopy() Type {
 	newType := Type{
 		Kind:     t.Kind,
 		Nullable: t.Nullable,
-		Default:  t.Default,
+		Default:  deepCopyValue(t.Default),
 		Hints:    make(JenniesHints, len(t.Hints)),
 	}
 
@@ -304,12 +304,39 @@ func (t Type) DeepCopy() Type {
 	}
 
 	for k, v := range t.Hints {
-		newType.Hints[k] = v
+		newType.Hints[k] = deepCopyValue(v)
 	}
 
 	newType.PassesTrail = append(newType.PassesTrail, t.PassesTrail...)
 
 	return newType
+}
+
+// deepCopyValue copies the mutable containers that untyped values (defaults,
+// hints, constants) can hold, so that copies of the IR do not share them.
+func deepCopyValue(value any) any {
+	switch typed := value.(type) {
+	case []any:
+		newSlice := make([]any, 0, len(typed))
+		for _, item := range typed {
+			newSlice = append(newSlice, deepCopyValue(item))
+		}
+		return newSlice
+	case map[string]any:
+		newMap := make(map[string]any, len(typed))
+		for k, v := range typed {
+			newMap[k] = deepCopyValue(v)
+		}
+		return newMap
+	case []string:
+		return append([]string(nil), typed...)
+	case DisjunctionType:
+		return typed.DeepCopy()
+	case Type:
+		return typed.DeepCopy()
+	default:
+		return value
+	}
 }
 
 type TypeOption func(def *Type)
